@@ -587,6 +587,7 @@ func init() {
 		"vpump":            primPump,
 		"vparked":          primParked,
 		"vgetPriv":         primGetPriv,
+		"vfindPriv":        primFindPriv,
 		"vsetPriv":         primSetPriv,
 		"vsymbolic":        func(m *M, fn *ssa.Function, a []Value) Value { return smt.True },
 		"vfail":            primFail,
@@ -805,6 +806,61 @@ func (m *M) privFieldPtr(obj Value, name string) (PtrV, types.Type) {
 func primGetPriv(m *M, fn *ssa.Function, a []Value) Value {
 	p, t := m.privFieldPtr(a[0], constStr(a[1]))
 	return IfaceV{T: t, V: m.st.load(p)}
+}
+
+// vfindPriv(root, "*pkg/path.Type"): the first value of that type reachable from root through pointers, interfaces and
+// struct fields (breadth first, depth <= 5), or nil - so that a harness can reach a dependency's object (the library
+// bucket inside kubegateway's wrappers) without naming the wrappers' private fields, which a change may rename.
+func primFindPriv(m *M, fn *ssa.Function, a []Value) Value {
+	want := constStr(a[1])
+	type item struct {
+		v Value
+		t types.Type
+		d int
+	}
+	root, ok := a[0].(IfaceV)
+	if !ok || root.T == nil {
+		return IfaceV{}
+	}
+	queue := []item{{root.V, root.T, 0}}
+	seen := map[int]bool{}
+	for len(queue) > 0 {
+		it := queue[0]
+		queue = queue[1:]
+		if types.TypeString(it.t, nil) == want {
+			return IfaceV{T: it.t, V: it.v}
+		}
+		if it.d >= 5 {
+			continue
+		}
+		switch u := under(it.t).(type) {
+		case *types.Pointer:
+			p, ok := it.v.(PtrV)
+			if !ok || p.Obj == 0 || p.Sym != nil {
+				continue
+			}
+			if len(p.Path) == 0 {
+				if seen[p.Obj] {
+					continue
+				}
+				seen[p.Obj] = true
+			}
+			queue = append(queue, item{m.st.load(p), u.Elem(), it.d + 1})
+		case *types.Interface:
+			if iv, ok := it.v.(IfaceV); ok && iv.T != nil {
+				queue = append(queue, item{iv.V, iv.T, it.d + 1})
+			}
+		case *types.Struct:
+			sv, ok := it.v.(*StructV)
+			if !ok {
+				continue
+			}
+			for i := 0; i < u.NumFields() && i < len(sv.F); i++ {
+				queue = append(queue, item{sv.F[i], u.Field(i).Type(), it.d + 1})
+			}
+		}
+	}
+	return IfaceV{}
 }
 
 func primSetPriv(m *M, fn *ssa.Function, a []Value) Value {
